@@ -113,6 +113,15 @@ CHECKS = {
    note="Trusted: TLC, Rand.tla; the random source itself is assumed uniform (no statistics on live output). Source values are handed to TLC in the "
         "helper's own radix (the harness converts int <-> digits).",
    technique="TLA+ spec (Rand.tla) model-checked with TLC + trace validation of recorded calls under a scripted random source"),
+ "C15": dict(cat=MC, design="DESIGN.md §3 C15",
+   text="TotpSerial.tla defines writing and reading of the provisioning URI, dict and JSON forms at field level (elision against the format "
+        "defaults, absent-means-format-default on reading, issuer prefix/parameter reconciliation, refusal rules) for every class-default set; TLC "
+        "checks From(To(o)) = o for all objects x class defaults x formats and that every corrupted source is refused; every enumerated case is "
+        "executed on real classes made by TOTP.using(**defaults) with hostile label/issuer strings, comparing the six fields and tokens at three "
+        "times; URIs are read back by an independent urllib.parse reader.",
+   note="Trusted: TLC, TotpSerial.tla, urllib.parse as independent URI reader. Strings are abstract symbols in the spec (quoting is bound by the "
+        "harness). AppWallet encryption is not exercised (no AES support on this host).",
+   technique="TLA+ spec (TotpSerial.tla) model-checked with TLC + exhaustive spec-to-implementation replay of the enumerated cases"),
 }
 PENDING = {}
 props = [json.loads(l) for l in open(os.path.join(HERE, "properties.jsonl"))]
